@@ -1,11 +1,13 @@
 // C12: sampler state is shared across workers and isolated between definitions.
 // Engine E2 (enumx): every pair of sampler definitions (A, B) from
-//   placement ∈ {two environments, environment vs prefixed dataset, top-level vs rule-downstream (two environments),
-//                top-level of an environment literally named like a downstream prefix vs that downstream,
-//                two downstream rules of two environments, two downstream rules of ONE environment}
-//   × sampler type ∈ {Dynamic, EMADynamic, TotalThroughput, EMAThroughput, WindowedThroughput}
-//   × B = A (identical, separately allocated) or B = A with exactly one configuration parameter changed
-//     (reflection over every field of the config struct; FieldList: other field / extra field / permuted / "a b" vs "a","b")
+//
+//	placement ∈ {two environments, environment vs prefixed dataset, top-level vs rule-downstream (two environments),
+//	             top-level of an environment literally named like a downstream prefix vs that downstream,
+//	             two downstream rules of two environments, two downstream rules of ONE environment}
+//	× sampler type ∈ {Dynamic, EMADynamic, TotalThroughput, EMAThroughput, WindowedThroughput}
+//	× B = A (identical, separately allocated) or B = A with exactly one configuration parameter changed
+//	  (reflection over every field of the config struct; FieldList: other field / extra field / permuted / "a b" vs "a","b")
+//
 // is built on a fresh real sample.SamplerFactory through its public entry points, and the identity of the
 // dynsampler-go instance behind each resulting sampler is read through a hook accessor.
 // Oracle (from the statement): same instance ⇔ same environment ∧ entire configurations identical.
@@ -175,7 +177,9 @@ func down(f *sample.SamplerFactory, dest string, i int) sample.Sampler {
 var placements = []placement{
 	{"two-environments", false, func(a, b any) (map[string]*config.V2SamplerChoice, func(*sample.SamplerFactory) (sample.Sampler, sample.Sampler)) {
 		return map[string]*config.V2SamplerChoice{"prod": topLevel(a), "staging": topLevel(b)},
-			func(f *sample.SamplerFactory) (sample.Sampler, sample.Sampler) { return get(f, "prod"), get(f, "staging") }
+			func(f *sample.SamplerFactory) (sample.Sampler, sample.Sampler) {
+				return get(f, "prod"), get(f, "staging")
+			}
 	}},
 	{"environments-differing-only-in-case", false, func(a, b any) (map[string]*config.V2SamplerChoice, func(*sample.SamplerFactory) (sample.Sampler, sample.Sampler)) {
 		return map[string]*config.V2SamplerChoice{"prod": topLevel(a), "Prod": topLevel(b)},
@@ -183,33 +187,47 @@ var placements = []placement{
 	}},
 	{"environment-vs-prefixed-dataset", false, func(a, b any) (map[string]*config.V2SamplerChoice, func(*sample.SamplerFactory) (sample.Sampler, sample.Sampler)) {
 		return map[string]*config.V2SamplerChoice{"prod": topLevel(a), "classic.prod": topLevel(b)},
-			func(f *sample.SamplerFactory) (sample.Sampler, sample.Sampler) { return get(f, "prod"), get(f, "classic.prod") }
+			func(f *sample.SamplerFactory) (sample.Sampler, sample.Sampler) {
+				return get(f, "prod"), get(f, "classic.prod")
+			}
 	}},
 	{"top-level-vs-downstream", false, func(a, b any) (map[string]*config.V2SamplerChoice, func(*sample.SamplerFactory) (sample.Sampler, sample.Sampler)) {
 		return map[string]*config.V2SamplerChoice{"prod": topLevel(a), "staging": rulesWith(b)},
-			func(f *sample.SamplerFactory) (sample.Sampler, sample.Sampler) { return get(f, "prod"), down(f, "staging", 0) }
+			func(f *sample.SamplerFactory) (sample.Sampler, sample.Sampler) {
+				return get(f, "prod"), down(f, "staging", 0)
+			}
 	}},
 	{"environment-named-like-downstream-prefix", false, func(a, b any) (map[string]*config.V2SamplerChoice, func(*sample.SamplerFactory) (sample.Sampler, sample.Sampler)) {
 		return map[string]*config.V2SamplerChoice{"rules:staging:": topLevel(a), "staging": rulesWith(b)},
-			func(f *sample.SamplerFactory) (sample.Sampler, sample.Sampler) { return get(f, "rules:staging:"), down(f, "staging", 0) }
+			func(f *sample.SamplerFactory) (sample.Sampler, sample.Sampler) {
+				return get(f, "rules:staging:"), down(f, "staging", 0)
+			}
 	}},
 	{"downstream-rules-of-two-environments", false, func(a, b any) (map[string]*config.V2SamplerChoice, func(*sample.SamplerFactory) (sample.Sampler, sample.Sampler)) {
 		return map[string]*config.V2SamplerChoice{"prod": rulesWith(a), "staging": rulesWith(b)},
-			func(f *sample.SamplerFactory) (sample.Sampler, sample.Sampler) { return down(f, "prod", 0), down(f, "staging", 0) }
+			func(f *sample.SamplerFactory) (sample.Sampler, sample.Sampler) {
+				return down(f, "prod", 0), down(f, "staging", 0)
+			}
 	}},
 	// environments that have no entry of their own and share the __default__ definition (one configuration object
 	// reached under two destination names): still two environments
 	{"two-environments-falling-back-to-default", false, func(a, b any) (map[string]*config.V2SamplerChoice, func(*sample.SamplerFactory) (sample.Sampler, sample.Sampler)) {
 		return map[string]*config.V2SamplerChoice{"__default__": topLevel(a), "other": topLevel(b)},
-			func(f *sample.SamplerFactory) (sample.Sampler, sample.Sampler) { return get(f, "alpha"), get(f, "beta") }
+			func(f *sample.SamplerFactory) (sample.Sampler, sample.Sampler) {
+				return get(f, "alpha"), get(f, "beta")
+			}
 	}},
 	{"downstream-rules-of-two-environments-falling-back-to-default", false, func(a, b any) (map[string]*config.V2SamplerChoice, func(*sample.SamplerFactory) (sample.Sampler, sample.Sampler)) {
 		return map[string]*config.V2SamplerChoice{"__default__": rulesWith(a), "other": topLevel(b)},
-			func(f *sample.SamplerFactory) (sample.Sampler, sample.Sampler) { return down(f, "alpha", 0), down(f, "beta", 0) }
+			func(f *sample.SamplerFactory) (sample.Sampler, sample.Sampler) {
+				return down(f, "alpha", 0), down(f, "beta", 0)
+			}
 	}},
 	{"environment-with-own-entry-vs-environment-falling-back-to-default", false, func(a, b any) (map[string]*config.V2SamplerChoice, func(*sample.SamplerFactory) (sample.Sampler, sample.Sampler)) {
 		return map[string]*config.V2SamplerChoice{"__default__": topLevel(a), "prod": topLevel(b)},
-			func(f *sample.SamplerFactory) (sample.Sampler, sample.Sampler) { return get(f, "alpha"), get(f, "prod") }
+			func(f *sample.SamplerFactory) (sample.Sampler, sample.Sampler) {
+				return get(f, "alpha"), get(f, "prod")
+			}
 	}},
 	{"two-downstream-rules-of-one-environment", true, func(a, b any) (map[string]*config.V2SamplerChoice, func(*sample.SamplerFactory) (sample.Sampler, sample.Sampler)) {
 		return map[string]*config.V2SamplerChoice{"prod": rulesWith(a, b)},
